@@ -67,6 +67,27 @@ namespace
         int owner_;
     };
 
+    // node-only logging leaf: array requests reach it through the default fallbacks of allocator_traits
+    class OMinLeaf
+    {
+    public:
+        using is_stateful = std::true_type;
+        explicit OMinLeaf(int owner) : owner_(owner) {}
+        OMinLeaf(const OMinLeaf&)            = delete;
+        OMinLeaf& operator=(const OMinLeaf&) = delete;
+        void* allocate_node(std::size_t size, std::size_t align)
+        {
+            return Slab::get().allocate(owner_, false, 1, size, align);
+        }
+        void deallocate_node(void* p, std::size_t size, std::size_t align) noexcept
+        {
+            Slab::get().deallocate(owner_, false, p, 1, size, align);
+        }
+
+    private:
+        int owner_;
+    };
+
     //=== throwing element type with a ledger ===//
     struct Ledger
     {
@@ -340,6 +361,7 @@ namespace
         fm::joint_array<E> arr;
         JA(fm::joint j, size_t n, size_t) : fm::joint_type<JA<E>>(j), arr(n, *this) {}
         JA(fm::joint j, const JA& o) : fm::joint_type<JA<E>>(j), arr(o.arr, *this) {}
+        JA(fm::joint j, JA&& o) : fm::joint_type<JA<E>>(j), arr(std::move(o.arr), *this) {}
         ~JA()
         {
             ++*g_dtor_count;
@@ -409,6 +431,7 @@ namespace
         fm::joint_array<E> arr;
         JR(fm::joint j, size_t n, size_t) : fm::joint_type<JR<E>>(j), arr(GenIt<E>{0}, GenIt<E>{n}, *this) {}
         JR(fm::joint j, const JR& o) : fm::joint_type<JR<E>>(j), arr(o.arr, *this) {}
+        JR(fm::joint j, JR&& o) : fm::joint_type<JR<E>>(j), arr(std::move(o.arr), *this) {}
         ~JR()
         {
             ++*g_dtor_count;
@@ -439,6 +462,7 @@ namespace
         fm::joint_array<E2> a2;
         JB(fm::joint j, size_t n, size_t m) : fm::joint_type<JB>(j), a1(n, *this), a2(m, *this) {}
         JB(fm::joint j, const JB& o) : fm::joint_type<JB>(j), a1(o.a1, *this), a2(o.a2, *this) {}
+        JB(fm::joint j, JB&& o) : fm::joint_type<JB>(j), a1(std::move(o.a1), *this), a2(std::move(o.a2), *this) {}
         ~JB()
         {
             ++*g_dtor_count;
@@ -478,6 +502,8 @@ namespace
                 vec.push_back(E{});
         }
         JV(fm::joint j, const JV& o) : fm::joint_type<JV<E>>(j), vec(o.vec, fm::joint_allocator(*this)) {}
+        // the documented idiom for moving a joint object: move every member with the new allocator
+        JV(fm::joint j, JV&& o) : fm::joint_type<JV<E>>(j), vec(std::move(o.vec), fm::joint_allocator(*this)) {}
         ~JV()
         {
             ++*g_dtor_count;
@@ -549,6 +575,11 @@ namespace
         JM(fm::joint j, const JM& o)
         : fm::joint_type<JM>(j), vec(o.vec, fm::joint_allocator(*this)), arr(o.arr, *this),
           str(o.str, fm::joint_allocator(*this))
+        {
+        }
+        JM(fm::joint j, JM&& o)
+        : fm::joint_type<JM>(j), vec(std::move(o.vec), fm::joint_allocator(*this)), arr(std::move(o.arr), *this),
+          str(std::move(o.str), fm::joint_allocator(*this))
         {
         }
         ~JM()
@@ -653,7 +684,7 @@ namespace
         };
         std::vector<std::vector<Piece>> dyn;
         unsigned n_created = 0, n_exact = 0, n_overflow = 0, n_clone_mut = 0, n_multi = 0;
-        unsigned n_dyn = 0, n_dyn_refused = 0, n_dyn_nonlast = 0, n_mutate_live = 0;
+        unsigned n_dyn = 0, n_dyn_refused = 0, n_dyn_nonlast = 0, n_mutate_live = 0, n_moved_objects = 0;
         int      dtors = 0;
         bool     allow_known = false;
 
@@ -1022,6 +1053,58 @@ namespace
                     ++n_mutate_live;
                 break;
             }
+            case 8: // a new joint object move-constructed from a live one (members moved with the new allocator)
+            {
+                if (!sp)
+                {
+                    ++ci.noops;
+                    break;
+                }
+                size_t to = (slot + 1 + o.b % 2) % 3;
+                reset(to);
+                if (fail.failed)
+                    break;
+                OLeaf& leaf = o.b % 2 ? leafB : leafA;
+                auto   blk  = Slab::get().find_block(sp.get());
+                if (!blk)
+                    break;
+                size_t additional = blk->size - sizeof(J);
+                uintptr_t res     = reinterpret_cast<uintptr_t>(sp.get()) % 16;
+                Slab::get().set_skew(res); // same residue: the source's layout fits again
+                std::vector<long> before;
+                {
+                    std::vector<Range> rs;
+                    sp->ranges(rs);
+                    for (auto& r : rs)
+                        before.push_back(long(r.n));
+                }
+                try
+                {
+                    *slots[to] = ptr_t(leaf, fm::joint_size(additional), std::move(*sp));
+                }
+                catch (fm::out_of_fixed_memory&)
+                {
+                    fail("move-failed", "move-constructing a joint object into a block of the source's size threw "
+                                        "out_of_fixed_memory");
+                    break;
+                }
+                Slab::get().set_skew(0);
+                auto& np = *slots[to];
+                check_object(np, additional); // every piece of the new object lies in the new object's block
+                if (fail.failed)
+                    break;
+                seeds[to] = seeds[slot];
+                // the source object stays alive (moved-from) until its owner is reset: do it now and
+                // look at the new object again - it must not depend on the source's block
+                auto saved = snapshot(to);
+                reset(slot);
+                if (!fail.failed)
+                    compare(to, saved, "destroying the moved-from source object");
+                if (!fail.failed)
+                    np->fill(seeds[to]);
+                ++n_moved_objects;
+                break;
+            }
             default:
                 ++ci.noops;
             }
@@ -1072,7 +1155,7 @@ namespace
             if (!fail.failed && (out_of(21) || out_of(22)))
                 fail("leak", "joint blocks left outstanding");
             ci.nontrivial = n_multi > 0 || n_exact > 0 || n_overflow > 0 || n_clone_mut > 0 || n_dyn_nonlast > 0
-                            || n_mutate_live > 0;
+                            || n_mutate_live > 0 || n_moved_objects > 0;
             if (n_dyn)
                 ci.classes.insert("post-construction-allocation");
             if (n_dyn_refused)
@@ -1081,6 +1164,8 @@ namespace
                 ci.classes.insert("release-not-last");
             if (n_mutate_live)
                 ci.classes.insert("container-op-with-live-pieces");
+            if (n_moved_objects)
+                ci.classes.insert("object-moved-with-allocator");
             if (n_exact)
                 ci.classes.insert("exact-fit");
             if (n_overflow)
@@ -1145,6 +1230,8 @@ namespace
         Fail&     fail;
         CaseInfo& ci;
         OLeaf     leaf{31};
+        OMinLeaf  minleaf{31}; // same owner id: the balance checks cover both
+        bool      use_min = false;
         Ledger    ledger;
         unsigned  n_fault_first = 0, n_fault_later = 0, n_ok = 0;
         bool      allow_known = false;
@@ -1206,7 +1293,10 @@ namespace
             case H_unique_array:
             {
                 arm(k);
-                auto p = fm::allocate_unique<Boom[]>(leaf, n);
+                if (use_min)
+                    (void)fm::allocate_unique<Boom[]>(minleaf, n);
+                else
+                    (void)fm::allocate_unique<Boom[]>(leaf, n);
                 break;
             }
             case H_shared:
@@ -1246,7 +1336,10 @@ namespace
             }
             case H_unique_array_noexcept:
             {
-                auto p = fm::allocate_unique<BoomNE[]>(leaf, n);
+                if (use_min)
+                    (void)fm::allocate_unique<BoomNE[]>(minleaf, n);
+                else
+                    (void)fm::allocate_unique<BoomNE[]>(leaf, n);
                 break;
             }
             case H_joint_size:
@@ -1293,6 +1386,9 @@ namespace
                 return;
             unsigned h = o.kind;
             size_t   n = o.a % 17; // 0..16
+            use_min    = (o.c / 2) % 2 == 1;
+            if (use_min)
+                ci.classes.insert("node-only-allocator");
             if (h == H_joint_retry)
             {
                 op_retry(o, n);
@@ -1475,10 +1571,11 @@ namespace
             {
                 out.max_ops = 30;
                 out.kinds   = {{"create_measure", 6}, {"create_small", 2}, {"clone", 4}, {"move", 3}, {"reset", 2},
-                               {"dyn_alloc", 7}, {"dyn_release", 4}, {"container_op", 4}};
+                               {"dyn_alloc", 7}, {"dyn_release", 4}, {"container_op", 4}, {"move_object", 4}};
                 out.rule    = "additional size > 0 with >= 2 members, or an exact-fit / one-byte-short creation, or a "
                               "clone followed by mutation, or the release of a piece that is not the last allocation "
-                              "while others are live, or a container operation while later pieces are live";
+                              "while others are live, or a container operation while later pieces are live, or a joint object "
+                              "move-constructed from another (members moved with the new allocator)";
                 return true;
             }
             return false;
